@@ -33,7 +33,7 @@ func init() {
 }
 
 var c01Behaviours = []string{"ok", "drop", "flip", "extra-cl-true", "extra-cl-lie", "substitute-same-len", "substitute-other-len", "range-wrong-offset",
-	"range-wrong-bytes", "range-no-content-range", "range-416", "404", "cl-short", "cl-long", "drop-at-0", "drop-at-end-1", "empty-body"}
+	"range-wrong-bytes", "range-no-content-range", "range-416", "404", "cl-short", "cl-long", "drop-at-0", "drop-at-end-1", "empty-body", "substitute-consistent-headers", "lying-digest-header"}
 
 func runC01(e *core.Env) {
 	// content
@@ -221,6 +221,13 @@ func runC01(e *core.Env) {
 			case "empty-body":
 				body = nil
 				r.Header.Set("Content-Length", "0")
+			case "substitute-consistent-headers":
+				// a server that serves other content and announces that content's own digest and length
+				body = []byte("other content, self-consistently announced " + strconv.Itoa(len(body)))
+				r.Header.Set("Content-Length", strconv.Itoa(len(body)))
+				r.Header.Set("Docker-Content-Digest", regmodel.Digest(alg, body))
+			case "lying-digest-header":
+				r.Header.Set("Docker-Content-Digest", regmodel.Digest(alg, []byte("something else")))
 			case "cl-short":
 				if len(body) > 1 {
 					r.Header.Set("Content-Length", strconv.Itoa(len(body)-1))
